@@ -478,6 +478,41 @@ def r12_placeholder_ids_are_negative(idx, r):
                       "lookups by its name and its history break")
 
 
+def r13_cascade_lookup_numbering(idx, r):
+    """(a) swapCascade skips a level whose assembly is None: the entry tested is the entry handed to swapAssemblies in that iteration.
+    (b) getLocationContents answers from a table built for THIS call (or handed in by the caller): a table remembered on the core is stale
+    after any move that keeps the number of assemblies.  (c) every renumbering in Reactor.normalizeNames is followed by storing the new
+    maximum, or the next fresh assembly gets a number that is in use."""
+    f = idx.method(FH, "swapCascade")
+    loop = next((x for x in walk_local(f.node) if isinstance(x, ast.For) and any(isinstance(c, ast.Call) and call_attr(c) == "swapAssemblies" for c in ast.walk(x))), None)
+    if loop is None:
+        raise AnchorMissing("swapCascade: loop calling swapAssemblies")
+    sw = next(c for c in ast.walk(loop) if isinstance(c, ast.Call) and call_attr(c) == "swapAssemblies")
+    guards = [x for x in loop.body if isinstance(x, ast.If) and any(isinstance(y, ast.Continue) for y in x.body)]
+    moving = norm(sw.args[1])
+    r.require(bool(guards) and all(moving in norm(gd.test) for gd in guards), "swapCascade:guard-tests-the-assembly-swapped-in", f, node=guards[0] if guards else sw,
+              msg=f"the level is skipped when `{norm(guards[0].test) if guards else ''}`, but the assembly handed to swapAssemblies is `{moving}`: a None in the cascade makes the NEXT real assembly stay where it is")
+    g = idx.method(CORE, "getLocationContents")
+    memo = [s_ for s_ in iter_stores(g.node) if s_.chain and s_.chain.startswith("self.")]
+    lc = [s_ for s_ in iter_stores(g.node) if s_.attr == "locContents" and isinstance(s_.node, ast.Name) and s_.value is not None]
+    env = single_assign_env(g.node)
+    fresh = bool(lc) and all(isinstance(s_.value, ast.Call) and dotted(s_.value.func) == "self.makeLocationLookup" for s_ in lc)
+    r.require(not memo and fresh, "getLocationContents:table-built-for-this-call", g, node=(memo[0].stmt if memo else (lc[0].stmt if lc else None)),
+              msg="the location table is remembered on the core between calls: after a swap or cascade (same number of assemblies) the next look-up answers with the assemblies that USED to be there")
+    h = idx.method("armi.reactor.reactors.Reactor", "normalizeNames")
+    rn = [x for x in walk_local(h.node) if isinstance(x, ast.Assign) and isinstance(x.value, ast.Call) and call_attr(x.value) == "normalizeNames" and isinstance(x.targets[0], ast.Name)]
+    if len(rn) < 2:
+        raise AnchorMissing("Reactor.normalizeNames: the two renumberings")
+    par = h.module.parents()
+    for k_, x in enumerate(rn):
+        blk = getattr(par[x], "body", None) or []
+        seq = blk if x in blk else (getattr(par[x], "orelse", []) or [])
+        i0 = seq.index(x) if x in seq else -1
+        stored = i0 >= 0 and any(isinstance(y, ast.Assign) and norm(y) == f"self.p.maxAssemNum = {norm(x.targets[0])}" for y in seq[i0 + 1:])
+        r.require(stored, f"Reactor.normalizeNames:renumbering{k_}:maximum-stored", h, node=x,
+                  msg=f"after `{norm(x)[:60]}` the new maximum assembly number is not stored: the counter stays behind the numbers just handed out, and the next fresh assembly collides with a pool assembly")
+
+
 def run(idx, chk):
     chk.explanation = (
         "C14: who may write childrenByLocator/assembliesByName/blocksByName; Core.add/removeAssembly touching every table exactly once on "
@@ -504,3 +539,5 @@ def run(idx, chk):
                  necessary="an add to an occupied location is refused with the documented error")
     chk.run_rule("R14.12", "only negative assembly numbers are placeholders (0 is a real identity)", lambda r: r12_placeholder_ids_are_negative(idx, r), floor=1,
                  necessary="an assembly keeps its name through add/remove cycles")
+    chk.run_rule("R14.13", "cascade guard tests the assembly swapped in; location table built per call; every renumbering stores the new maximum", lambda r: r13_cascade_lookup_numbering(idx, r), floor=4,
+                 necessary="each lookup returns the object at that location; no two assemblies share a name")
